@@ -343,7 +343,12 @@ class AsyncPolicy:
             raise
 
         except Exception as exc:
-            klass = classify_for_breaker(exc, None)
+            try:
+                klass = classify_for_breaker(exc, None)
+            except BaseException:
+                # The default classifier reads attributes of the exception; if that raises, still settle the breaker.
+                record_cancel(ctx)
+                raise
             record_failure(ctx, klass)
             if on_end is not None:
                 on_end(
